@@ -450,12 +450,15 @@ def gen_w(r, wf):
         else:
             c2 = c + r.choice([0, 1, 5, 40]) if (wf or r.random() < 0.8) else c - 2
             w = Fraction(r.choice([250, 500, 750, 1000])) if r.random() < 0.8 else Fraction(r.randint(0, 9999), 4)
-            num(Fraction(c))
-            num(Fraction(c2))
+            # malformed family: one or both CID bounds of a range written as reals (5.0): the entry is to be skipped
+            which = r.choice([0, 1, 2]) if (not wf and r.random() < 0.25) else None
+            num(Fraction(c), isint=False if which in (0, 2) else None)
+            num(Fraction(c2), isint=False if which in (1, 2) else None)
             num(w)
-            for k in range(c, c2 + 1):
-                iso[k] = w
-                iso.pop(("bad", k), None)
+            if which is None:
+                for k in range(c, c2 + 1):
+                    iso[k] = w
+                    iso.pop(("bad", k), None)
         if not wf and r.random() < 0.25:
             k = r.random()
             if k < 0.4:
